@@ -8,6 +8,7 @@ from __future__ import annotations
 
 import json
 import math
+import os
 import traceback
 import warnings
 
@@ -27,6 +28,7 @@ VACUOUS = 1e-2
 # O6: queries whose algorithm is deterministic, draws no random numbers and reads no cache on the unchanged tree.  The
 # historied object and its fresh twin hold the same data under the same settings, so the two answers must agree directly,
 # also where the error functional is vacuous (a low-rank approximation is "inexact" by design, but it is the same one)
+SHAPE_FREE_QUERIES = {"root_decomposition", "root_inv_decomposition", "diagonalization", "pivoted_cholesky", "preconditioner", "samples"}
 DIRECT_QUERIES = {"pivoted_cholesky"}
 DIRECT_LIM = {"float64": 1e-3, "float32": 2e-2}
 
@@ -751,6 +753,13 @@ class World:
             # leading batch dimension of size one on a *fresh* object too; a shape that does not fit the matrix makes the error
             # functional infinite and is caught below
             self.stat("shape_differs")
+            if op["q"] not in SHAPE_FREE_QUERIES:
+                # O7: queries whose result shape / dtype is a function of the operator alone (everything but the truncating
+                # Lanczos-based factorizations) must have the fresh copy's signature: a factor transplanted from an operator
+                # of another batch shape or dtype broadcasts / casts silently through every error functional
+                self.violate("C12", "shape", rec.cls, qsig,
+                             f"step {i}: {label}: result signature {hres.shape_sig} on the historied object vs {fres.shape_sig} on a fresh copy; {ctx}")
+                return
         # exact regime: the fresh copy is exact, the historied object must be too (floor).  Approximate regime (the fresh
         # copy itself is inexact: truncated / jittered Lanczos, unconverged CG): errors of random approximations vary by
         # orders of magnitude between draws, so anything below the vacuity threshold or within 30x is accepted
